@@ -90,18 +90,78 @@ func errClass(err error) string {
 // so the ids are not restored (and ids that differ only in such bytes become one id).
 const kindNonUTF8 = "restore-differs/non-utf8-subscriber-id"
 
-// nonUTF8Kind maps a post-restore difference kind to kindNonUTF8 if an id that is not valid UTF-8 was used
-// before serialisation (hist names the ids by index, so every id of the alphabet counts once one is invalid).
-func nonUTF8Kind(kind string, ids []string, hist []string) string {
-	if !(strings.HasPrefix(kind, "restore-") || kind == "unmarshal-error" || kind == "remarshal-differs" || kind == "panic") {
-		return kind
+// The listed signature must identify that ROOT CAUSE, not "something differed in a case whose alphabet has a
+// non-UTF-8 id".  A failure is classified kindNonUTF8 only with all of this evidence:
+//   - its kind belongs to the restore family (restoreFamily);
+//   - an id that is not valid UTF-8 was part of the serialised state (held an allocation / had a record when
+//     MarshalJSON ran) - ids that only appear in the alphabet, or only after the restore, never pass through JSON;
+//   - the SAME generated history over the twin alphabet (only the bytes that are not valid UTF-8 replaced by valid
+//     stand-ins; NUL / control bytes / separators and valid ids unchanged) shows no failure at all: the difference is caused by the ids' bytes, by nothing else;
+//   - right after the restore no entry of a VALID id differs (Lookup / GetBySubscriber of a valid id, the owner
+//     of a valid id's prefix): mangling cannot touch those.
+//
+// Everything else keeps the plain signature (restore-query-differs/<query>, restore-continuation-differs/<op>, ...),
+// which is not listed.
+func restoreFamily(kind string) bool {
+	return strings.HasPrefix(kind, "restore-") || kind == "unmarshal-error" || kind == "remarshal-differs" || kind == "panic"
+}
+
+// sfail is the first failure of one serialise/restore case.
+type sfail struct {
+	kind, sfx, msg string
+	validEntry     string // right after the restore: an entry of a valid-UTF-8 id that differs ("" if none)
+	invalidInState bool   // an id that is not valid UTF-8 was part of the serialised state
+}
+
+// twinIDs replaces, in every id, exactly the bytes that are not part of a valid UTF-8 sequence by a valid stand-in
+// (byte b -> U+0100+b, injective), and keeps every other byte - NUL, control bytes, '/' - as it is: the twin
+// differs from the original in nothing but UTF-8 validity.  Valid ids are unchanged.
+func twinIDs(ids []string) []string {
+	out := make([]string, len(ids))
+	for i, id := range ids {
+		var sb strings.Builder
+		for j := 0; j < len(id); {
+			r, n := utf8.DecodeRuneInString(id[j:])
+			if r == utf8.RuneError && n == 1 {
+				sb.WriteRune(rune(0x100) + rune(id[j]))
+			} else {
+				sb.WriteString(id[j : j+n])
+			}
+			j += n
+		}
+		out[i] = sb.String()
 	}
-	for _, id := range ids {
-		if !utf8.ValidString(id) {
-			return kindNonUTF8
+	return out
+}
+
+// classifyNonUTF8 decides the kind a failure is reported under (see above); twin re-runs the case over the twin alphabet.
+func classifyNonUTF8(f *sfail, ids []string, twin func(ids []string) *sfail) (kind, note string) {
+	kind = f.kind + f.sfx
+	if !restoreFamily(f.kind) || !f.invalidInState {
+		return kind, ""
+	}
+	if f.validEntry != "" {
+		return kind, "\n  not attributed to the non-UTF-8 ids: an entry of a valid id differs: " + f.validEntry
+	}
+	if tf := twin(twinIDs(ids)); tf != nil {
+		return kind, fmt.Sprintf("\n  not attributed to the non-UTF-8 ids: the same history over valid stand-in ids %q fails too (%s: %s)", twinIDs(ids), tf.kind+tf.sfx, tf.msg)
+	}
+	return kindNonUTF8, ""
+}
+
+// mixRaw: half of the raw-DUID alphabets keep three raw ids and get three valid ones (the hex spelling a DUID has
+// everywhere else), so that valid and non-UTF-8 ids share one instance.
+func mixRaw(rt *rapid.T, sch pools.IDScheme) pools.IDScheme {
+	if sch.Name != "duid-raw" || !rapid.Bool().Draw(rt, "mixRawWithValid") {
+		return sch
+	}
+	ids := append([]string(nil), sch.IDs...)
+	for i := range ids {
+		if i%2 == 1 {
+			ids[i] = fmt.Sprintf("%x", ids[i])
 		}
 	}
-	return kind
+	return pools.IDScheme{Name: "duid-raw-mixed", IDs: ids}
 }
 
 // ---- IPAllocator --------------------------------------------------------------
@@ -199,13 +259,12 @@ func TestPropSerialBitmap(t *testing.T) {
 	vstat.Checks(2000, 40000)
 	rapid.Check(t, func(rt *rapid.T) {
 		cidr, unit, gclass := genBitmapGeom(rt)
-		a, err := allocator.NewIPAllocator(cidr, unit)
-		if err != nil {
+		if _, err := allocator.NewIPAllocator(cidr, unit); err != nil {
 			rt.Fatalf("generator produced a geometry the constructor rejects: %v", err)
 		}
 		// IPAllocator is what PoolAllocator wraps, and pkg/dhcpv6 hands PoolAllocator the raw client DUID as
 		// subscriber id: the raw-DUID alphabet is part of this allocator's domain
-		sch := pools.GenIDSchemeRaw(nSubs, "p1").Draw(rt, "ids")
+		sch := mixRaw(rt, pools.GenIDSchemeRaw(nSubs, "p1").Draw(rt, "ids"))
 		ids := sch.IDs
 		pre := genSops(rt, "pre", bitmapKinds, 0, 20)
 		post := genSops(rt, "post", bitmapKinds, 1, 12)
@@ -214,74 +273,18 @@ func TestPropSerialBitmap(t *testing.T) {
 		// not serialised (listed finding): such moves are generated only in the "exercise" share of cases.
 		exercise := oneIn(rt, "exercise", 2)
 		allowMove := exercise || !vstat.IsListed("C12/bitmap/restore-continuation-differs/alloc/after-setallocation-move")
-		var hist []string
-		moved := false
-		for _, o := range pre {
-			res, mv := applyBitmap(a, o, cidr, unit, allowMove, ids)
-			moved = moved || mv
-			hist = append(hist, o.String()+"="+res)
+		run := func(ids []string) (*sfail, []string, bool, uint64) {
+			return bitmapCase(cidr, unit, ids, pre, post, intoUsed, allowMove)
 		}
-		fail := func(kind, f string, args ...any) bool {
-			kind = nonUTF8Kind(kind, ids, hist)
-			known := vstat.Fail(rt, "C12/bitmap/"+kind, "%s\n  pool %s unit /%d ids(%s) %q\n  history: %s", fmt.Sprintf(f, args...), cidr, unit, sch.Name, ids, strings.Join(hist, "; "))
+		f, hist, moved, aa := run(ids)
+		if f != nil {
+			kind, note := classifyNonUTF8(f, ids, func(tw []string) *sfail { tf, _, _, _ := run(tw); return tf })
+			known := vstat.Fail(rt, "C12/bitmap/"+kind, "%s%s\n  pool %s unit /%d ids(%s) %q\n  history: %s", f.msg, note, cidr, unit, sch.Name, ids, strings.Join(hist, "; "))
 			if known && kind == kindNonUTF8 {
 				vstat.Case(false, 0, nil, "impl:bitmap", "ids:"+sch.Name, "known-hit")
 			}
-			return known
-		}
-		data, err := json.Marshal(a)
-		if err != nil {
-			fail("marshal-error", "MarshalJSON: %v", err)
 			return
 		}
-		r := &allocator.IPAllocator{}
-		if intoUsed {
-			r, _ = allocator.NewIPAllocator("192.0.2.0/28", 32)
-			r.Allocate("zz")
-			r.Allocate(ids[1])
-		}
-		if err := json.Unmarshal(data, r); err != nil {
-			fail("unmarshal-error", "UnmarshalJSON of the allocator's own output: %v\n  json: %s", err, data)
-			return
-		}
-		hist = append(hist, "RESTORE")
-		if d := compareBitmap(a, r, cidr, unit, ids); d != nil {
-			if fail("restore-query-differs/"+d.query, "%s: %s", d.query, d.detail) {
-				return
-			}
-		}
-		for _, o := range post {
-			var ra, rr string
-			var mv bool
-			if p := guard(func() {
-				ra, mv = applyBitmap(a, o, cidr, unit, allowMove, ids)
-				rr, _ = applyBitmap(r, o, cidr, unit, allowMove, ids)
-			}); p != "" {
-				fail("panic", "%s panicked: %s", o, p)
-				return
-			}
-			hist = append(hist, o.String()+"="+ra)
-			sfx := ""
-			if moved {
-				sfx = "/after-setallocation-move"
-			}
-			if ra != rr {
-				fail("restore-continuation-differs/"+o.Kind+sfx, "%s: original %s, restored %s", o, ra, rr)
-				return
-			}
-			if d := compareBitmap(a, r, cidr, unit, ids); d != nil {
-				fail("restore-continuation-differs/"+d.query+sfx, "after %s %s: %s", o, d.query, d.detail)
-				return
-			}
-			moved = moved || mv
-		}
-		d2, _ := json.Marshal(r)
-		d1, _ := json.Marshal(a)
-		if string(d1) != string(d2) {
-			fail("remarshal-differs", "original serialises to %s, restored to %s", d1, d2)
-			return
-		}
-		aa, _, _ := a.Stats()
 		cls := []string{"impl:bitmap", "geom:" + gclass, "ids:" + sch.Name}
 		if intoUsed {
 			cls = append(cls, "restore-into-used-instance")
@@ -294,6 +297,93 @@ func TestPropSerialBitmap(t *testing.T) {
 			return map[string]any{"impl": "bitmap", "pool": cidr, "unit": unit, "id_scheme": sch.Name, "ids": ids, "history": hist}
 		}, cls...)
 	})
+}
+
+// bitmapCase runs one generated serialise/restore case of IPAllocator over the given id alphabet and returns its
+// first failure (nil: none), the history, whether a SetAllocation move happened and the allocation count.
+func bitmapCase(cidr string, unit int, ids []string, pre, post []sop, intoUsed, allowMove bool) (f *sfail, hist []string, moved bool, aa uint64) {
+	a, err := allocator.NewIPAllocator(cidr, unit)
+	if err != nil {
+		return &sfail{kind: "constructor-error", msg: err.Error()}, nil, false, 0
+	}
+	for _, o := range pre {
+		res, mv := applyBitmap(a, o, cidr, unit, allowMove, ids)
+		moved = moved || mv
+		hist = append(hist, o.String()+"="+res)
+	}
+	invalidInState := false
+	for _, id := range ids {
+		if !utf8.ValidString(id) && a.Lookup(id) != nil {
+			invalidInState = true
+		}
+	}
+	fail := func(kind, format string, args ...any) {
+		f = &sfail{kind: kind, msg: fmt.Sprintf(format, args...), invalidInState: invalidInState}
+	}
+	data, err := json.Marshal(a)
+	if err != nil {
+		fail("marshal-error", "MarshalJSON: %v", err)
+		return
+	}
+	r := &allocator.IPAllocator{}
+	if intoUsed {
+		r, _ = allocator.NewIPAllocator("192.0.2.0/28", 32)
+		r.Allocate("zz")
+		r.Allocate(ids[1])
+	}
+	if err := json.Unmarshal(data, r); err != nil {
+		fail("unmarshal-error", "UnmarshalJSON of the allocator's own output: %v\n  json: %s", err, data)
+		return
+	}
+	hist = append(hist, "RESTORE")
+	if d := compareBitmap(a, r, cidr, unit, ids); d != nil {
+		fail("restore-query-differs/"+d.query, "%s: %s", d.query, d.detail)
+		for _, id := range ids {
+			if !utf8.ValidString(id) || f.validEntry != "" {
+				continue
+			}
+			pa, pr := a.Lookup(id), r.Lookup(id)
+			if ipn(pa) != ipn(pr) {
+				f.validEntry = fmt.Sprintf("Lookup(%q): original %s, restored %s", id, ipn(pa), ipn(pr))
+			} else if pa != nil && (r.LookupByPrefix(pa) != id || !r.IsAllocated(pa)) {
+				f.validEntry = fmt.Sprintf("%q holds %s: restored LookupByPrefix answers %q, IsAllocated %v", id, ipn(pa), r.LookupByPrefix(pa), r.IsAllocated(pa))
+			}
+		}
+		return
+	}
+	for _, o := range post {
+		var ra, rr string
+		var mv bool
+		if p := guard(func() {
+			ra, mv = applyBitmap(a, o, cidr, unit, allowMove, ids)
+			rr, _ = applyBitmap(r, o, cidr, unit, allowMove, ids)
+		}); p != "" {
+			fail("panic", "%s panicked: %s", o, p)
+			return
+		}
+		hist = append(hist, o.String()+"="+ra)
+		sfx := ""
+		if moved {
+			sfx = "/after-setallocation-move"
+		}
+		if ra != rr {
+			fail("restore-continuation-differs/"+o.Kind+sfx, "%s: original %s, restored %s", o, ra, rr)
+			return
+		}
+		if d := compareBitmap(a, r, cidr, unit, ids); d != nil {
+			fail("restore-continuation-differs/"+d.query+sfx, "after %s %s: %s", o, d.query, d.detail)
+			return
+		}
+		moved = moved || mv
+	}
+	d2, _ := json.Marshal(r)
+	d1, _ := json.Marshal(a)
+	if string(d1) != string(d2) {
+		fail("remarshal-differs", "original serialises to %s, restored to %s", d1, d2)
+		return
+	}
+	aa, _, _ = a.Stats()
+	return
 }
 
 // ---- EpochBitmapAllocator -----------------------------------------------------
@@ -656,152 +746,187 @@ var msKinds = []string{"save", "save", "save", "remove", "setTotal"}
 func TestPropSerialMemStore(t *testing.T) {
 	vstat.Checks(2000, 40000)
 	rapid.Check(t, func(rt *rapid.T) {
-		ctx := context.Background()
-		a := allocator.NewMemoryAllocationStore()
-		// a real caller: PoolAllocators persisting into the store
-		var pas []*allocator.PoolAllocator
-		for _, p := range msPools {
-			pa, err := allocator.NewPoolAllocatorWithType(allocator.PoolAllocatorConfig{PoolID: p.id, BaseNetwork: p.cidr, PrefixLength: p.unit, PoolType: p.typ, Store: a})
-			if err != nil {
-				rt.Fatalf("pool allocator: %v", err)
-			}
-			pas = append(pas, pa)
-		}
-		m := &msState{held: map[string]string{}}
 		// the store's real writer is PoolAllocator on behalf of pkg/dhcpv6 (raw client DUID as subscriber id)
-		sch := pools.GenIDSchemeRaw(nSubs, msPools[0].id).Draw(rt, "ids")
+		sch := mixRaw(rt, pools.GenIDSchemeRaw(nSubs, msPools[0].id).Draw(rt, "ids"))
 		ids := sch.IDs
 		viaPool := genSops(rt, "pool", []string{"palloc", "palloc", "palloc", "prelease"}, 0, 12)
 		pre := genSops(rt, "pre", msKinds, 0, 10)
 		post := genSops(rt, "post", msKinds, 1, 10)
 		allowMove := !vstat.IsListed("C12/memstore/restore-query-differs/GetByIP/after-resave-different-prefix") || oneIn(rt, "exercise", 3)
-		var hist []string
-		probeSet := map[string]net.IP{"203.0.113.7": net.ParseIP("203.0.113.7")}
-		note := func() {
-			for _, v := range m.held {
-				ip, _, _ := net.ParseCIDR(v)
-				probeSet[ip.String()] = ip
-			}
-		}
-		for _, o := range viaPool {
-			i := o.Arg % len(msPools)
-			s := ids[o.Sub]
-			k := msPools[i].id + "/" + s
-			if o.Kind == "palloc" {
-				p, err := pas[i].Allocate(ctx, s, fmt.Sprintf("02:00:00:00:01:%02x", o.Sub))
-				hist = append(hist, fmt.Sprintf("pool[%s].Allocate(%q)=%s,%s", msPools[i].id, s, ipn(p), errClass(err)))
-				if err == nil {
-					m.held[k] = p.String()
-				}
-			} else {
-				err := pas[i].Release(ctx, s)
-				hist = append(hist, fmt.Sprintf("pool[%s].Release(%q)=%s", msPools[i].id, s, errClass(err)))
-				if err == nil {
-					delete(m.held, k)
-				}
-			}
-			note()
-		}
-		moved := false
-		for _, o := range pre {
-			res, c := applyMemStore(a, m, o, true, allowMove, ids)
-			moved = moved || c == "resave-different-prefix"
-			hist = append(hist, o.String()+"="+res)
-			note()
-		}
-		sfx := func() string {
-			if moved {
-				return "/after-resave-different-prefix"
-			}
-			return ""
-		}
-		fail := func(kind, f string, args ...any) bool {
-			if k := nonUTF8Kind(kind, ids, hist); k == kindNonUTF8 {
-				return vstat.Fail(rt, "C12/memstore/"+k, "%s\n  ids(%s) %q\n  history: %s", fmt.Sprintf(f, args...), sch.Name, ids, strings.Join(hist, "; "))
-			}
-			return vstat.Fail(rt, "C12/memstore/"+kind+sfx(), "%s\n  ids(%s) %q\n  history: %s", fmt.Sprintf(f, args...), sch.Name, ids, strings.Join(hist, "; "))
-		}
-		data, err := json.Marshal(a)
-		if err != nil {
-			fail("marshal-error", "MarshalJSON: %v", err)
-			return
-		}
-		r := allocator.NewMemoryAllocationStore()
 		intoUsed := rapid.IntRange(0, 3).Draw(rt, "restoreIntoUsed") == 0
-		if intoUsed {
-			_, pn, _ := net.ParseCIDR("192.0.2.9/32")
-			r.SaveAllocation(ctx, allocator.AllocationRecord{SubscriberID: "zz", PoolID: "old", Prefix: pn})
-			r.SetPoolTotal("old", 3)
-		}
-		if err := json.Unmarshal(data, r); err != nil {
-			fail("unmarshal-error", "UnmarshalJSON of the store's own output: %v\n  json: %s", err, data)
-			return
-		}
-		hist = append(hist, "RESTORE")
-		probes := func() []net.IP {
-			var ks []string
-			for k := range probeSet {
-				ks = append(ks, k)
-			}
-			sort.Strings(ks)
-			out := []net.IP{net.ParseIP("192.0.2.9")}
-			for _, k := range ks {
-				out = append(out, probeSet[k])
-			}
-			return out
+		run := func(ids []string) *msOut { return memStoreCase(ids, viaPool, pre, post, allowMove, intoUsed) }
+		o := run(ids)
+		if o.ctorErr != nil {
+			rt.Fatalf("pool allocator: %v", o.ctorErr)
 		}
 		known := false
-		if d := compareMemStore(a, r, probes(), ids); d != nil {
-			if fail("restore-query-differs/"+d.query, "%s: %s", d.query, d.detail) {
-				known = true
-			}
-		}
-		if !known {
-			for _, o := range post {
-				var ra, rr, c string
-				if p := guard(func() {
-					ra, c = applyMemStore(a, m, o, false, allowMove, ids)
-					rr, _ = applyMemStore(r, m, o, true, allowMove, ids)
-				}); p != "" {
-					fail("panic", "%s panicked: %s", o, p)
-					return
-				}
-				moved = moved || c == "resave-different-prefix"
-				hist = append(hist, o.String()+"="+ra)
-				note()
-				if ra != rr {
-					if fail("restore-continuation-differs/"+o.Kind, "%s: original %s, restored %s", o, ra, rr) {
-						known = true
-						break
-					}
-				}
-				if d := compareMemStore(a, r, probes(), ids); d != nil {
-					if fail("restore-continuation-differs/"+d.query, "after %s %s: %s", o, d.query, d.detail) {
-						known = true
-						break
-					}
-				}
+		if f := o.f; f != nil {
+			kind, note := classifyNonUTF8(f, ids, func(tw []string) *sfail { return run(tw).f })
+			known = vstat.Fail(rt, "C12/memstore/"+kind, "%s%s\n  ids(%s) %q\n  history: %s", f.msg, note, sch.Name, ids, strings.Join(o.hist, "; "))
+			if !known {
+				return
 			}
 		}
 		cls := []string{"impl:memstore", "ids:" + sch.Name}
 		if intoUsed {
 			cls = append(cls, "restore-into-used-instance")
 		}
-		if moved {
+		if o.moved {
 			cls = append(cls, "resave-different-prefix")
 		}
 		if known {
 			cls = append(cls, "known-hit")
 		}
+		if o.pools >= 2 {
+			cls = append(cls, "records-in>=2-pools")
+		}
+		vstat.Case(o.count >= 2, vstat.Hash("memstore", sopsString(viaPool), sopsString(pre), sopsString(post), intoUsed, allowMove, strings.Join(ids, "\x00")), func() any {
+			return map[string]any{"impl": "memstore", "id_scheme": sch.Name, "ids": ids, "history": o.hist}
+		}, cls...)
+	})
+}
+
+type msOut struct {
+	f       *sfail
+	hist    []string
+	moved   bool
+	count   int
+	pools   int
+	ctorErr error
+}
+
+// memStoreCase runs one generated serialise/restore case of MemoryAllocationStore over the given id alphabet
+// (stops at its first failure).
+func memStoreCase(ids []string, viaPool, pre, post []sop, allowMove, intoUsed bool) *msOut {
+	out := &msOut{}
+	ctx := context.Background()
+	a := allocator.NewMemoryAllocationStore()
+	// a real caller: PoolAllocators persisting into the store
+	var pas []*allocator.PoolAllocator
+	for _, p := range msPools {
+		pa, err := allocator.NewPoolAllocatorWithType(allocator.PoolAllocatorConfig{PoolID: p.id, BaseNetwork: p.cidr, PrefixLength: p.unit, PoolType: p.typ, Store: a})
+		if err != nil {
+			out.ctorErr = err
+			return out
+		}
+		pas = append(pas, pa)
+	}
+	m := &msState{held: map[string]string{}}
+	probeSet := map[string]net.IP{"203.0.113.7": net.ParseIP("203.0.113.7")}
+	note := func() {
+		for _, v := range m.held {
+			ip, _, _ := net.ParseCIDR(v)
+			probeSet[ip.String()] = ip
+		}
+	}
+	for _, o := range viaPool {
+		i := o.Arg % len(msPools)
+		s := ids[o.Sub]
+		k := msPools[i].id + "/" + s
+		if o.Kind == "palloc" {
+			p, err := pas[i].Allocate(ctx, s, fmt.Sprintf("02:00:00:00:01:%02x", o.Sub))
+			out.hist = append(out.hist, fmt.Sprintf("pool[%s].Allocate(%q)=%s,%s", msPools[i].id, s, ipn(p), errClass(err)))
+			if err == nil {
+				m.held[k] = p.String()
+			}
+		} else {
+			err := pas[i].Release(ctx, s)
+			out.hist = append(out.hist, fmt.Sprintf("pool[%s].Release(%q)=%s", msPools[i].id, s, errClass(err)))
+			if err == nil {
+				delete(m.held, k)
+			}
+		}
+		note()
+	}
+	for _, o := range pre {
+		res, c := applyMemStore(a, m, o, true, allowMove, ids)
+		out.moved = out.moved || c == "resave-different-prefix"
+		out.hist = append(out.hist, o.String()+"="+res)
+		note()
+	}
+	finish := func() *msOut {
+		out.count = a.Count()
 		poolsSeen := map[string]bool{}
 		for k := range m.held {
 			poolsSeen[strings.SplitN(k, "/", 2)[0]] = true
 		}
-		if len(poolsSeen) >= 2 {
-			cls = append(cls, "records-in>=2-pools")
+		out.pools = len(poolsSeen)
+		return out
+	}
+	invalidInState := false
+	for _, id := range ids {
+		if rs, _ := a.GetBySubscriber(ctx, id); !utf8.ValidString(id) && len(rs) > 0 {
+			invalidInState = true
 		}
-		vstat.Case(a.Count() >= 2, vstat.Hash("memstore", sopsString(viaPool), sopsString(pre), sopsString(post), intoUsed, allowMove, strings.Join(ids, "\x00")), func() any {
-			return map[string]any{"impl": "memstore", "id_scheme": sch.Name, "ids": ids, "history": hist}
-		}, cls...)
-	})
+	}
+	fail := func(kind, format string, args ...any) {
+		sfx := ""
+		if out.moved {
+			sfx = "/after-resave-different-prefix"
+		}
+		out.f = &sfail{kind: kind, sfx: sfx, msg: fmt.Sprintf(format, args...), invalidInState: invalidInState}
+	}
+	data, err := json.Marshal(a)
+	if err != nil {
+		fail("marshal-error", "MarshalJSON: %v", err)
+		return finish()
+	}
+	r := allocator.NewMemoryAllocationStore()
+	if intoUsed {
+		_, pn, _ := net.ParseCIDR("192.0.2.9/32")
+		r.SaveAllocation(ctx, allocator.AllocationRecord{SubscriberID: "zz", PoolID: "old", Prefix: pn})
+		r.SetPoolTotal("old", 3)
+	}
+	if err := json.Unmarshal(data, r); err != nil {
+		fail("unmarshal-error", "UnmarshalJSON of the store's own output: %v\n  json: %s", err, data)
+		return finish()
+	}
+	out.hist = append(out.hist, "RESTORE")
+	probes := func() []net.IP {
+		var ks []string
+		for k := range probeSet {
+			ks = append(ks, k)
+		}
+		sort.Strings(ks)
+		o := []net.IP{net.ParseIP("192.0.2.9")}
+		for _, k := range ks {
+			o = append(o, probeSet[k])
+		}
+		return o
+	}
+	if d := compareMemStore(a, r, probes(), ids); d != nil {
+		fail("restore-query-differs/"+d.query, "%s: %s", d.query, d.detail)
+		for _, id := range ids {
+			if !utf8.ValidString(id) || out.f.validEntry != "" {
+				continue
+			}
+			ra, rr := recsString(a.GetBySubscriber(ctx, id)), recsString(r.GetBySubscriber(ctx, id))
+			if ra != rr {
+				out.f.validEntry = fmt.Sprintf("GetBySubscriber(%q): original %s, restored %s", id, ra, rr)
+			}
+		}
+		return finish()
+	}
+	for _, o := range post {
+		var ra, rr, c string
+		if p := guard(func() {
+			ra, c = applyMemStore(a, m, o, false, allowMove, ids)
+			rr, _ = applyMemStore(r, m, o, true, allowMove, ids)
+		}); p != "" {
+			fail("panic", "%s panicked: %s", o, p)
+			return finish()
+		}
+		out.moved = out.moved || c == "resave-different-prefix"
+		out.hist = append(out.hist, o.String()+"="+ra)
+		note()
+		if ra != rr {
+			fail("restore-continuation-differs/"+o.Kind, "%s: original %s, restored %s", o, ra, rr)
+			return finish()
+		}
+		if d := compareMemStore(a, r, probes(), ids); d != nil {
+			fail("restore-continuation-differs/"+d.query, "after %s %s: %s", o, d.query, d.detail)
+			return finish()
+		}
+	}
+	return finish()
 }
